@@ -306,6 +306,40 @@ Proof.
   pose proof (H i Hi) as A. pose proof (H j Hj) as B. congruence.
 Qed.
 
+(* once a finder is installed, the list OBJECTS it was compiled with are never touched again: a
+   compile creates fresh lists (PC1-PC3 rebind the attributes to new objects) and appends only to
+   those; nothing clears or refills the lists a finder in use is reading *)
+Lemma step_stable st i v :
+  Inv st -> s_slot st = Compiled v ->
+  s_slot (step st i) = Compiled v /\ s_rv (step st i) = s_rv st /\ s_pat (step st i) = s_pat st /\
+  s_conv (step st i) = s_conv st /\ forall u, s_heap (step st i) u = s_heap st u.
+Proof.
+  intros [HG HT] HS. pose proof (HT i) as Hi. unfold Model.step.
+  destruct (s_pc st i) as [|f|f rv|f rv pat|f rv pat cv| | | | | |todo cmap| |r] eqn:Hpc; simpl in Hi;
+    try (repeat split; auto; fail).
+  all: try (destruct (s_dict st i); repeat split; auto; fail).
+  all: try (destruct f; repeat split; auto; fail).
+  all: try (destruct (s_lock st); repeat split; auto; fail).
+  all: try (rewrite HS; repeat split; auto; fail).
+  all: try (destruct Hi as [_ Hd]; congruence).
+  all: try (destruct Hi as (_ & Hd & _); congruence).
+Qed.
+
+Theorem compiled_tables_stable sched1 sched2 v :
+  let st1 := run_sched cinst cmulti roots paths true true sched1 in
+  let st2 := run_sched cinst cmulti roots paths true true (sched1 ++ sched2) in
+  s_slot st1 = Compiled v ->
+  s_slot st2 = Compiled v /\ s_rv st2 = s_rv st1 /\ s_pat st2 = s_pat st1 /\ s_conv st2 = s_conv st1 /\
+  forall u, s_heap st2 u = s_heap st1 u.
+Proof.
+  intros st1 st2 HS. unfold st2, run_sched. rewrite fold_left_app. fold (run_sched cinst cmulti roots paths true true sched1).
+  fold st1. pose proof (run_inv sched1) as HI. fold st1 in HI. clearbody st1. clear st2.
+  revert st1 HS HI. induction sched2 as [|i sched2 IH]; intros st1 HS HI; simpl; [repeat split; auto|].
+  destruct (step_stable st1 i v HI HS) as (A & B & C & D & E).
+  destruct (IH (step st1 i) A (step_inv st1 i HI)) as (A' & B' & C' & D' & E').
+  repeat split; try congruence; intro u; rewrite E', E; reflexivity.
+Qed.
+
 End Safe.
 
 (* ---- every lookup works on its own params dict: the dict a thread holds was created by that
